@@ -13,7 +13,7 @@ import logging
 from ..common import Finding, Report
 from ..refmodel import inc
 
-KINDS = ("zip", "cl", "cl_e0", "union")
+KINDS = ("zip", "cl", "cl_e0", "cl_e1", "union")
 
 
 def _rec_class():
@@ -46,6 +46,8 @@ class Real:
             j = b.combine_latest(c)
         elif kind == "cl_e0":
             j = b.combine_latest(c, emit_on=0)
+        elif kind == "cl_e1":
+            j = b.combine_latest(c, emit_on=1)      # an index other than 0: stays bound to c when b goes away
         else:
             j = b.union(c)
         self.nodes = dict(a=a, b=b, c=c, m=m, j=j)
@@ -53,6 +55,8 @@ class Real:
         # a branch only the program references, and a sink
         self.branch = Rec(c.map(inc), "br", log)
         self.sink = a.sink(lambda x: log.append(("snk", x, None)))
+        # a sink the program keeps no reference to (the usual `x.sink(f)` statement): active until destroyed
+        c.sink(lambda x: log.append(("snk2", x, None)))
 
     def all_nodes(self):
         out = dict(self.nodes)
@@ -67,10 +71,11 @@ class Ref:
 
     def __init__(self, kind):
         self.kind = kind
-        self.edges = {"a": ["m", "snk"], "b": ["j"], "c": ["j", "brm"], "m": ["rm"], "j": ["rj"], "brm": ["br"]}
-        self.ups = {"m": ["a"], "j": ["b", "c"], "rm": ["m"], "rj": ["j"], "a": [], "b": [], "c": [], "brm": ["c"], "br": ["brm"], "snk": ["a"]}
+        self.edges = {"a": ["m", "snk"], "b": ["j"], "c": ["j", "brm", "snk2"], "m": ["rm"], "j": ["rj"], "brm": ["br"]}
+        self.ups = {"m": ["a"], "j": ["b", "c"], "rm": ["m"], "rj": ["j"], "a": [], "b": [], "c": [], "brm": ["c"], "br": ["brm"], "snk": ["a"],
+                    "snk2": ["c"]}
         self.jstate = {"b": [], "c": []} if kind == "zip" else {"b": None, "c": None}
-        self.emit_on = ["b"] if kind == "cl_e0" else None
+        self.emit_on = ["b"] if kind == "cl_e0" else (["c"] if kind == "cl_e1" else None)
         self.backlog = []      # complete zip tuples that became available through an edit
 
     def connect(self, u, d):
@@ -92,8 +97,8 @@ class Ref:
     def push(self, node, item, frm, out):
         """item = (value, metadata ids)"""
         val, ids = item
-        if node in ("rm", "rj", "br", "snk"):
-            out.append((node[1:] if node in ("rm", "rj") else node, val, None if node == "snk" else ids))
+        if node in ("rm", "rj", "br", "snk", "snk2"):
+            out.append((node[1:] if node in ("rm", "rj") else node, val, None if node in ("snk", "snk2") else ids))
             return
         if node in ("m", "brm"):
             outs = [(inc(val), ids)]
@@ -148,7 +153,8 @@ class Ref:
 OPS = [("emit", "a", 1), ("emit", "b", 1), ("emit", "b", 2), ("emit", "c", 5), ("emit", "c", 6),
        ("connect", "a", "j"), ("connect", "m", "j"), ("disconnect", "b", "j"), ("disconnect", "c", "j"),
        ("disconnect", "a", "j"), ("disconnect", "m", "j"), ("connect", "b", "j"), ("connect", "c", "j"),
-       ("destroy", "j"), ("destroy", "m"), ("dropref", "br"), ("sinkdestroy",)]
+       ("destroy", "j"), ("destroy", "m"), ("dropref", "br"), ("sinkdestroy",),
+       ("destroyonly", "j", "b"), ("destroyonly", "j", "c")]       # j.destroy(streams=[b]): only that input goes
 
 
 def applicable(ref, op, flags):
@@ -162,12 +168,18 @@ def applicable(ref, op, flags):
         if u == "m" and "a" in ref.ups["j"]:
             return False
         return True
-    if op[0] == "disconnect":
+    if op[0] in ("disconnect", "destroyonly"):
+        if op[0] == "destroyonly":
+            op = ("disconnect", op[2], op[1])
         if ref.kind == "cl_e0" and op[1] == "b":
             return False     # documented to raise: removing the emit_on stream
+        if ref.kind == "cl_e1" and op[1] == "c":
+            return False
         return op[2] in ref.edges.get(op[1], [])
     if op[0] == "destroy":
         if ref.kind == "cl_e0" and op[1] == "j" and "b" in ref.ups["j"]:
+            return False
+        if ref.kind == "cl_e1" and op[1] == "j" and "c" in ref.ups["j"]:
             return False
         return bool(ref.ups[op[1]])
     if op[0] == "dropref":
@@ -221,6 +233,8 @@ def run(kind, hist):
                             clause = "gc-branch-alive"
                         if not any(e[0] == "snk" for e in log) and any(e[0] == "snk" for e in exp):
                             clause = "sink-dead"
+                        if not any(e[0] == "snk2" for e in log) and any(e[0] == "snk2" for e in exp):
+                            clause = "sink-dead"
                         return (clause, "j" if clause in ("stuck-tuple",) else _site(log, exp), dict(got=list(log), want=exp, op=op)), None
                 elif op[0] == "connect":
                     ref.connect(op[1], op[2])
@@ -228,6 +242,9 @@ def run(kind, hist):
                 elif op[0] == "disconnect":
                     ref.disconnect(op[1], op[2])
                     real.nodes[op[1]].disconnect(real.nodes[op[2]])
+                elif op[0] == "destroyonly":
+                    ref.disconnect(op[2], op[1])
+                    real.nodes[op[1]].destroy(streams=[real.nodes[op[2]]])
                 elif op[0] == "destroy":
                     for u in list(ref.ups[op[1]]):
                         ref.disconnect(u, op[1])
@@ -273,6 +290,13 @@ def run(kind, hist):
                 real.sink.destroy()
         except Exception:
             pass
+        try:
+            from streamz.sinks import Sink
+            for d in list(real.nodes["c"].downstreams):
+                if isinstance(d, Sink):
+                    d.destroy()
+        except Exception:
+            pass
         if gc_was:
             gc.enable()
 
@@ -286,11 +310,14 @@ def _site(log, exp):
     return "?"
 
 
+_JOIN = {"zip": "zip", "cl": "combine_latest", "cl_e0": "combine_latest", "cl_e1": "combine_latest", "union": "union"}
+
+
 def _opsite(ref, op):
     if op[0] in ("connect", "disconnect") and op[2] == "j":
-        return {"zip": "zip", "cl": "combine_latest", "cl_e0": "combine_latest", "union": "union"}[ref.kind]
-    if op[0] == "destroy":
-        return {"zip": "zip", "cl": "combine_latest", "cl_e0": "combine_latest", "union": "union"}[ref.kind] if op[1] == "j" else "map"
+        return _JOIN[ref.kind]
+    if op[0] in ("destroy", "destroyonly"):
+        return _JOIN[ref.kind] if op[1] == "j" else "map"
     return op[0]
 
 
@@ -346,8 +373,8 @@ def check(ctx):
                             "join=%s history=%s :: %s" % (r["kind"], list(hist), str(info)[:300])))
     rep.coverage = dict(evaluations=tot["runs"], states=tot["states"], transitions=tot["transitions"],
                         traces_validated_against_impl=tot["runs"], distinct_nontrivial=tot["states"],
-                        rule="BFS over histories of %d operations (5 emits, 8 connect/disconnect, 2 destroy, drop-last-reference+gc, sink.destroy) on a fixed node pool with "
-                             "4 join kinds, depth %d, dedup on (current edge lists, join state, flags); distinct = distinct canonical states" % (len(OPS), depth),
+                        rule="BFS over histories of %d operations (5 emits, 8 connect/disconnect, 2 destroy, 2 destroy(streams=[one input]), drop-last-reference+gc, sink.destroy) on a fixed node pool "
+                             "(incl. a sink nobody references) with 5 join kinds, depth %d, dedup on (current edge lists, join state, flags); distinct = distinct canonical states" % (len(OPS), depth),
                         samples=samples, depth=depth, per_join=per)
     rep.assumptions = ["pipelines without parallel edges (excluded by construction)",
                        "zip after removing a lagging input may deliver the now-complete tuples at the edit or at the next arrival (both accepted)"]
